@@ -162,7 +162,7 @@ FACT_OBLIGATIONS = {
     "C06": [("Sessions.FactsCondsAnomaly", ["FactsConds.start_ua", "FactsConds.ua_block_eq_uaOK", "FactsConds.start_valid_only_cleared",
                                             "FactsConds.start_ip_guards", "FactsConds.start_ip_body", "FactsConds.goIP_eq_ipOK",
                                             "FactsConds.matchIP_length"])],
-    "C07": [("Sessions.FactsPinsDelete", ["FactsPins.cache_delete_source_matches_model"])],
+    "C07": [],   # cache.Delete: translated and proved equal to Sx.cacheDelete (FactsIrCache) + store call under the cache lock (FactsCacheAtomic)
     "C11": [("Sessions.FactsErrors", ["FactsErrors.errors_propagate", "FactsErrors.error_sites_cover"])],
     "C12": [("Sessions.FactsPinsCache", ["FactsPins.cache_source_matches_model"]),
             ("Sessions.FactsCondsCache", ["FactsConds.compact_idle", "FactsConds.compact_size_tests", "FactsConds.compact_victim",
